@@ -287,7 +287,14 @@ TCrash ==
      THEN Emit(Finding(pOpen, "open-failed", {}, r.open))
      ELSE LET K == Matching(r.d) IN
           IF K = {}
-          THEN Emit(Finding(pOpen, "not-a-prefix", Diff(hist[Len(hist)], r.d), ""))
+          THEN /\ Emit(Finding(pOpen, "not-a-prefix", Diff(hist[Len(hist)], r.d), ""))
+               (* not a prefix at all: it still violates C01 when something every state from the acknowledged one on  *)
+               (* contains (so nothing later deleted it) is absent from what was read back                          *)
+               /\ LET o == DumpSets(r.d)
+                      kept(i) == {x \in Expect(hist[need])[i] : \A k \in need..Len(hist) : x \in Expect(hist[k])[i]}
+                      lost == {i \in Interfaces : kept(i) \ o[i] # {}}
+                  IN IF lost = {} THEN TRUE
+                     ELSE Emit(Finding(pAck, "lost-acked", {i \o ":missing" : i \in lost}, "image matches no prefix"))
           ELSE LET Kgood == {k \in K : FuIssues(r, k) = {}}
                    k == IF Kgood # {} THEN Max(Kgood) ELSE Max(K)
                IN
